@@ -42,6 +42,9 @@ type MakeHashTable struct {
 // Call the function with the arguments provided.
 func (f *MakeHashTable) Call(s *slip.Scope, args slip.List, depth int) (result slip.Object) {
 	slip.CheckArgCount(s, depth, f, args, 0, 8)
+	if len(args)%2 != 0 {
+		slip.ErrorPanic(s, depth, "extra arguments that are not keyword and value pairs")
+	}
 
 	return slip.HashTable{}
 }
